@@ -672,7 +672,7 @@ theorem authAny_ok_of_user (P : Prims) (a : Alg) (fileId pw : Bytes) (h : a.auth
 Algorithms 3 and 4/5 for an (owner, user) password pair, `decrypt_raw` with the owner password
 returns exactly what it returns with the user password — every object, the trailer, or the same
 error.  (With `objects_rt` and the correspondence of the user-password path this is the owner half
-of the property; before /repo <COMMIT-F-C05-a> the result was garbage.) -/
+of the property; before /repo cc32d41 the result was garbage.) -/
 theorem doc_rt_owner_r234 (P : Prims) (d : Doc) (enc : Dict) (a : Alg) (ownerPw userPw : Bytes)
     (hd : d.getEncrypted = some enc) (ha : algOfDict enc = .ok a) (hr : 2 ≤ a.revision ∧ a.revision ≤ 4)
     (hO : a.computeO P ownerPw userPw = .ok a.ownerValue)
